@@ -183,6 +183,38 @@ def window_rule(rep, cfg, path, out):
     rep.ob("WINDOW/%s/flag" % cfg.name, ok_flag,
            "the result value must carry exactly one nonsquare_lookup factor, indexed by the low bit b of q0', and was_square must be `b == 0`; indices %s, flag %s" % (
                [Tm.show(x, maxdepth=3) for x in nsq], Tm.show(fl, maxdepth=4) if fl is not None else None), where=cfg.where(path))
+    # the looked-up keys and the result are PRODUCTS: key_i = x_i * (i table entries), result = uv-part * nonsquare factor * six table entries
+    root_ = list(tall.keys())[0] if len(tall) == 1 else None
+
+    def mul_leaves(t):
+        if t is root_ or tw(t)[1] > 0:
+            return [t]
+        if t.op == "mul":
+            return mul_leaves(t.args[0]) + mul_leaves(t.args[1])
+        return [t]
+
+    def is_entry(t):
+        return t.op == "index" and table_name(t.args[0]) is not None and table_name(t.args[0]) != "s_lookup"
+
+    def has_entry(t):
+        return any(is_entry(u) for u in Tm.subterms(t))
+    keys = [a[1] for pc, kind, a, site in out.effects if kind == "index" and table_name(a[0]) == "s_lookup"]
+    badp = []
+    for i, kx in enumerate(keys):
+        lv = mul_leaves(kx)
+        ent = [x for x in lv if is_entry(x)]
+        rest = [x for x in lv if not is_entry(x)]
+        root = list(tall.keys())[0] if len(tall) == 1 else None
+        if any(has_entry(x) for x in rest) or len(rest) != 1 or tw(rest[0])[0] is not root or len(ent) != i:
+            badp.append("key %d = %s" % (i, Tm.show(kx, maxdepth=3)))
+    lv = mul_leaves(rv)
+    ent = [x for x in lv if is_entry(x)]
+    rest = [x for x in lv if not is_entry(x)]
+    if any(has_entry(x) for x in rest) or len(ent) != 7:
+        badp.append("result = %s (%d table factors)" % (Tm.show(rv, maxdepth=3), len(ent)))
+    rep.ob("WINDOW/%s/products" % cfg.name, not badp and len(keys) == 6,
+           "each of the six s_lookup keys must be x_k times table entries only, and the result a product with exactly seven table factors (nonsquare_lookup, g0..g40) "
+           "- a sum in their place still type-checks: %s" % ("; ".join(badp[:3]) or "%d keys" % len(keys)), where=cfg.where(path))
     sexp = [t for t in Tm.subterms(allt) if t.op == "pow" and t.args[1].op == "bigint_of" and Tm.is_lit(t.args[1].args[0]) and t.args[1].args[0].args[0] == (1 << N_) - 1]
     rep.ob("WINDOW/%s/s-exponent" % cfg.name, len(sexp) >= 1, "den must be raised to 2^N - 1 = 2^%d - 1" % N_, where=cfg.where(path), nontrivial=False)
     # final halving
